@@ -14,6 +14,16 @@ type Generator struct {
 	ip       uintptr
 	upvalues []*Upvalue
 	stack    []value.Value
+	// upvalues that captured locals of the generator and were open
+	// when it got suspended, they are reopened when it is resumed
+	suspendedUpvalues []suspendedUpvalue
+}
+
+// An upvalue that has been closed because the frame of its generator
+// has been moved off the stack, and the index of the local it captured.
+type suspendedUpvalue struct {
+	upvalue    *Upvalue
+	localIndex int
 }
 
 // Create a new generator
@@ -98,6 +108,7 @@ func initGenerator() {
 			self := (*Generator)(args[0].Pointer())
 			catch := self.Bytecode.CatchEntries[0]
 			self.ip = self.Bytecode.ipAddRaw(uintptr(catch.JumpAddress))
+			self.suspendedUpvalues = nil
 			return args[0], value.Undefined
 		},
 	)
